@@ -452,6 +452,18 @@ func TestPropGamm(t *testing.T) {
 				for i := range ids {
 					routes = append(routes, pmtypes.SwapAmountInRoute{PoolId: ids[i], TokenOutDenom: outs[i]})
 				}
+				mutated := false
+				if rapid.IntRange(0, 5).Draw(rt, "repeatDenom") == 0 {
+					// hop i is asked to pay out the denom it takes in
+					i := rapid.IntRange(0, len(routes)-1).Draw(rt, "repeatAt")
+					if i == 0 {
+						routes[i].TokenOutDenom = in
+					} else {
+						routes[i].TokenOutDenom = routes[i-1].TokenOutDenom
+					}
+					mutated = true
+					cs.Class("exact-in-route-with-a-denom-repeated")
+				}
 				minOut := osmomath.OneInt()
 				if rapid.IntRange(0, 4).Draw(rt, "impossibleMinOut") == 0 {
 					// a limit that cannot be met: the swap is computed (and the pool objects touched) before it is rejected
@@ -468,10 +480,10 @@ func TestPropGamm(t *testing.T) {
 							revisits = true
 						}
 					}
-					if d := delta(b0, b1, chain.Actor(a), in); new(big.Int).Neg(d).Cmp(amt) != 0 && !revisits {
+					if d := delta(b0, b1, chain.Actor(a), in); new(big.Int).Neg(d).Cmp(amt) != 0 && !revisits && !mutated {
 						rt.Fatalf("exact-in swap of %s%s debited the trader %s", amt, in, new(big.Int).Neg(d))
 					}
-					if len(ids) == 1 && !whitelisted {
+					if len(ids) == 1 && !whitelisted && !mutated {
 						keep := new(big.Rat).Sub(big.NewRat(1, 1), new(big.Rat).SetFrac(fee.BigInt(), new(big.Int).Exp(big.NewInt(10), big.NewInt(18), nil)))
 						after := new(big.Rat).Mul(keep, new(big.Rat).SetInt(amt))
 						fl := new(big.Int).Quo(after.Num(), after.Denom())
@@ -502,6 +514,19 @@ func TestPropGamm(t *testing.T) {
 				for i := len(ids) - 1; i >= 0; i-- {
 					routes = append(routes, pmtypes.SwapAmountOutRoute{PoolId: ids[i], TokenInDenom: ins[i]})
 				}
+				// a route that ValidateBasic accepts but that names one denom twice in a row (hop i would trade a denom against
+				// itself), or lets the first hop take the out denom: whatever the modules answer, the ledgers must stay consistent
+				mutated := false
+				if rapid.IntRange(0, 5).Draw(rt, "repeatDenom") == 0 {
+					i := rapid.IntRange(0, len(routes)-1).Draw(rt, "repeatAt")
+					if i+1 < len(routes) {
+						routes[i].TokenInDenom = routes[i+1].TokenInDenom
+					} else {
+						routes[i].TokenInDenom = out
+					}
+					mutated = true
+					cs.Class("exact-out-route-with-a-denom-repeated")
+				}
 				max := new(big.Int).Exp(big.NewInt(10), big.NewInt(29), nil)
 				msg := &pmtypes.MsgSwapExactAmountOut{Sender: chain.Actor(a).String(), Routes: routes, TokenInMaxAmount: osmomath.NewIntFromBigInt(max), TokenOut: coin(out, amt)}
 				r, b0, b1 := run(fmt.Sprintf("swapOut %s%s via %v", amt, out, ids), msg, false)
@@ -513,7 +538,7 @@ func TestPropGamm(t *testing.T) {
 							revisits = true
 						}
 					}
-					if d := delta(b0, b1, chain.Actor(a), out); d.Cmp(amt) != 0 && !revisits {
+					if d := delta(b0, b1, chain.Actor(a), out); d.Cmp(amt) != 0 && !revisits && !mutated {
 						rt.Fatalf("exact-out swap for %s%s credited the trader %s", amt, out, d)
 					}
 					if len(ids) > 1 {
